@@ -65,6 +65,38 @@ func c10Bases(thorough bool) []c10Base {
 		})},
 	)
 	bases = append(bases,
+		c10Base{"concrete-and-its-interface-both-consumed", custom(func(b *ir.Builder) *ir.Program {
+			p := b.Root
+			rd := b.Iface(p, "Reader")
+			st := b.Leaf(p, "Store")
+			st.Impls = []*ir.Type{rd}
+			st.PtrRecv = true
+			app, aud := b.Leaf(p, "App"), b.Leaf(p, "Audit")
+			inj := &ir.Injector{Name: "Init", Out: ir.Ptr(app), Items: []*ir.Item{
+				ir.FuncItem(&ir.Func{Pkg: p, Name: "NewStore", Out: ir.Ptr(st)}),
+				ir.BindItem(rd, ir.Ptr(st)),
+				// the concrete type comes before the interface in one parameter list, after it in the other
+				ir.FuncItem(&ir.Func{Pkg: p, Name: "NewAudit", Params: []*ir.Type{rd, ir.Ptr(st)}, Out: aud}),
+				ir.FuncItem(&ir.Func{Pkg: p, Name: "NewApp", Params: []*ir.Type{ir.Ptr(st), rd, aud}, Out: ir.Ptr(app)}),
+			}}
+			return &ir.Program{Root: p, Injectors: []*ir.Injector{inj}}
+		})},
+		c10Base{"concrete-before-its-interface", custom(func(b *ir.Builder) *ir.Program {
+			p := b.Root
+			rd := b.Iface(p, "Reader")
+			st := b.Leaf(p, "Store")
+			st.Impls = []*ir.Type{rd}
+			st.PtrRecv = true
+			app := b.Leaf(p, "App")
+			inj := &ir.Injector{Name: "Init", Out: ir.Ptr(app), Items: []*ir.Item{
+				ir.FuncItem(&ir.Func{Pkg: p, Name: "NewStore", Out: ir.Ptr(st)}),
+				ir.BindItem(rd, ir.Ptr(st)),
+				ir.FuncItem(&ir.Func{Pkg: p, Name: "NewApp", Params: []*ir.Type{ir.Ptr(st), rd}, Out: ir.Ptr(app)}),
+			}}
+			return &ir.Program{Root: p, Injectors: []*ir.Injector{inj}}
+		})},
+	)
+	bases = append(bases,
 		c10Base{"struct-with-same-typed-fields-and-case-pair", custom(func(b *ir.Builder) *ir.Program {
 			p := b.Root
 			str := b.Leaf(p, "Str")
